@@ -870,6 +870,13 @@ func (x *Exec) jsonUnmarshal(data []*Term, target Value, opts jsonDecodeOpts) Va
 // registerJSONModel installs the model for the engine (only for checks that ask for it: the
 // planner checks keep the cheaper special cases)
 func registerJSONModel(e *Engine) {
+	// checks that run whole request paths also need package time's pure functions (strfmt's init
+	// builds time values); clock and timers have no Go bodies and stay unsupported
+	delete(e.denyPkgs, "time")
+	e.intrinsics["time.runtimeNano"] = func(x *Exec, fn *ssa.Function, a []Value) (Value, bool) { return mkBV(64, 1), true }
+	e.intrinsics["time.now"] = func(x *Exec, fn *ssa.Function, a []Value) (Value, bool) {
+		return TupleVal{mkBV(64, 1700000000), mkBV(32, 0), mkBV(64, 1)}, true
+	}
 	e.intrinsics["encoding/json.Marshal"] = func(x *Exec, fn *ssa.Function, a []Value) (Value, bool) {
 		iv := a[0].(*IfaceVal)
 		if iv.T == nil {
